@@ -73,14 +73,18 @@ def renamings(n, rng, count):
     for f in fixed:
         if f is not None and len(f) == n and len(set(f)) == n:
             out.append(f)
-    pool = HELPER_NAMES + ["V%d" % i for i in range(5, 12)] + ["NE%d" % i for i in range(6, 30)] + UNI + [LONG]
+    pool = list(dict.fromkeys(HELPER_NAMES + ["V%d" % i for i in range(5, 12)] + ["NE%d" % i for i in range(6, 30)] + UNI + [LONG]))
     while len(out) < count:
         if n <= len(pool):
             out.append(rng.sample(pool, n))
         else:
             out.append(rng.sample(pool, len(pool)) + ["z%d" % i for i in range(n - len(pool))])
     rng.shuffle(out)
-    return out[:count]
+    out = out[:count]
+    for nm in out:
+        if len(nm) != n or len(set(nm)) != n:
+            raise core.HarnessError("renaming is not injective: %r" % (nm,))
+    return out
 
 
 def c08_cases(tier, rng):
@@ -222,6 +226,13 @@ def c09_cases(tier, rng):
             uc["smap"] = usm
             uc.update(g=gid, rel="union", ex=1)
             out.append(uc)
+            # the parts and the union must run with the very same options (apply() replaces the slow network-simplex
+            # positioner on large inputs, which the union can be while its parts are not)
+            for pc in out:
+                pc["p4"] = uc["p4"]
+                pc["budgetms"] = uc["budgetms"]
+                if any(pc[k] != uc[k] for k in ("p1", "p2", "p3", "p4", "p5", "ns", "ls", "fixed", "virt", "thor")):
+                    raise core.HarnessError("C09 group with different options")
             yield from out
 
 
